@@ -27,7 +27,8 @@ RULE = ("exhaustive: every code of every format (bfloat/bfloatle: all 65536) dec
         "+-1 ulp, (65504,65520), >=65520, 1e300, subnormals, +-inf, NaN, -0.0, random doubles) through keyword / property "
         "assignment / token string / Dtype.build / pack / Array; mxint on the k/128 grid +-1 ulp; e8m0 powers of two and "
         "non-powers; scaled dtypes (2**k, k in -8..8, 3, -2) through Dtype.build/parse, read and Array. "
-        "key = (format, mode, input code) for enumerated inputs, (format, mode, input class, route) for sampled ones; "
+        "key = (format, mode, input code) for enumerated inputs (keyword route; other routes: one key per block of 1024), "
+        "(format, mode, input class, route) for sampled ones; "
         "non-trivial = input is not +-0 / code is not 0")
 ANCHORS = ['Binary8Format.float_to_int8', 'MXFPFormat.float_to_int',
            'p4binary2bitstore', 'p3binary2bitstore', 'e4m3mxfp2bitstore', 'e5m2mxfp2bitstore', 'e3m2mxfp2bitstore',
@@ -333,7 +334,7 @@ def judge_enc16(ctx, c):
     codec = mf.CODECS[fmt]
     nb = codec.nbits
     opname = 'encode:' + route
-    suffix = '' if route == 'kw' else '|' + route
+    blockkey = f'{fmt}|{mode}|{route}|block{c["lo"] // BLOCK}'      # non-keyword routes: one key per block
     with util.options(mxfp_overflow=mode, lsb0=False):
         for i in range(c['lo'], c['hi']):
             x = struct.unpack('>e', i.to_bytes(2, 'big'))[0]
@@ -342,7 +343,7 @@ def judge_enc16(ctx, c):
             got, problem = got_code(res, nb)
             if problem is None and (got == exp or codec.acceptable(exp, got)):
                 ctx.op(opname, 'ok' if got is not None else 'ValueError')
-                ctx.ok(f'{fmt}|{mode}|{i:04x}{suffix}', i & 0x7fff != 0)
+                ctx.ok(f'{fmt}|{mode}|{i:04x}' if route == 'kw' else blockkey, i & 0x7fff != 0)
                 continue
             judge_enc(ctx, {'k': 'enc', 'fmt': fmt, 'nm': nm, 'mode': mode, 'x': hx(x), 'routes': [route], 'cls': clsname})
     ctx.state(fmt, mode, c['lo'])
